@@ -285,6 +285,59 @@ def two_dirs(ctx, seed):
             gd.cleanup()
 
 
+def preemption_points(ctx, ref):
+    """systematic preemption of one memoised call: thread A is suspended at each source line of BSEMemoize.__call__ in turn (with
+    sys.settrace, nothing is patched) while thread B issues a burst of several hundred other calls of the same memoised function
+    (all cache misses: fresh spellings of the data directory); A then resumes.  For a cold and for a warm entry, A's answer must
+    be what an uncached process returns, whatever B did to the cache in between"""
+    from basis_set_exchange import memo, api
+    code = memo.BSEMemoize.__call__.__code__
+    lines = sorted({ln for _a, _b, ln in code.co_lines() if ln})
+    dd = os.path.join(paths.REPO, 'basis_set_exchange', 'data')
+    want = norm(ref.call('bse.has_family_notes', ('pople', dd), {}))
+    serial = [0]
+    for line in lines:
+        for warm in (False, True):
+            serial[0] += 1
+            mine = dd + '/' * (3 + serial[0])             # a spelling of its own for every experiment: cold unless warmed here
+            if warm:
+                api.has_family_notes('pople', mine)
+            go, done, out, fired = threading.Event(), threading.Event(), [], [False]
+
+            def burst():
+                go.wait(20)
+                for k in range(320):
+                    api.has_family_notes('pople', dd + '/.' * (2 + k) + '/' * serial[0])
+                done.set()
+
+            def local(frame, event, arg):
+                if event == 'line' and frame.f_lineno == line and not fired[0]:
+                    fired[0] = True
+                    go.set()
+                    done.wait(60)
+                return local
+
+            def tracer(frame, event, arg):
+                return local if frame.f_code is code else None
+
+            def a_thread():
+                sys.settrace(tracer)
+                try:
+                    out.append(norm(impl.call(api.has_family_notes, 'pople', mine)))
+                finally:
+                    sys.settrace(None)
+            tb, ta = threading.Thread(target=burst), threading.Thread(target=a_thread)
+            tb.start()
+            ta.start()
+            ta.join(120)
+            go.set()
+            tb.join(120)
+            ctx.case(('preempt', line, warm), True, 'preemption-point:' + ('warm' if warm else 'cold'))
+            if not out or out[0] != want:
+                ctx.violation('memo.BSEMemoize', 'preemption', 'a memoised call suspended at line %d of BSEMemoize.__call__ (%s entry) while 320 other calls missed the cache returns %s, an uncached process %s'
+                              % (line, 'warm' if warm else 'cold', out[0] if out else 'nothing', want), {'kind': 'preemption', 'line': line, 'warm': warm})
+
+
 def binding_shapes(ctx):
     """all positional / keyword / default binding shapes of every memoised signature: _make_key vs the model vs Python's
     own binding (inspect.signature.bind)"""
@@ -462,6 +515,7 @@ def run(ctx):
             poison(ctx, ctx.seed * 5 + i, ref)
         for i in range(ctx.budget(4, 60)):
             two_dirs(ctx, ctx.seed * 17 + i)
+        preemption_points(ctx, ref)
         for i, nt in enumerate([2, 4, 8, 16] * ctx.budget(1, 10)):
             threads(ctx, ctx.seed * 7 + i, ref, nt)
         for i, nt in enumerate([4, 8, 16] * ctx.budget(1, 10)):
@@ -482,6 +536,8 @@ def replay(ctx, rec):
             poison(ctx, r['seed'], ref)
         elif r.get('kind') == 'two-dirs':
             two_dirs(ctx, r['seed'])
+        elif r.get('kind') == 'preemption':
+            preemption_points(ctx, ref)
         elif r.get('kind') == 'cold-threads':
             cold_threads(ctx, r['seed'], r['nthreads'])
         else:
